@@ -186,12 +186,86 @@ fn parse_path(pkt: &[u8]) -> Option<RStdPath> {
 // lock-step walk
 // ------------------------------------------------------------------------------------------
 
-#[derive(Default)]
+#[derive(Default, Clone, Copy)]
+pub struct IdHasher(u64);
+impl std::hash::Hasher for IdHasher {
+    fn finish(&self) -> u64 {
+        self.0
+    }
+    fn write(&mut self, b: &[u8]) {
+        for x in b {
+            self.0 = (self.0 << 8) | *x as u64;
+        }
+    }
+    fn write_u64(&mut self, v: u64) {
+        self.0 = v;
+    }
+}
+pub type StateSet = HashSet<u64, std::hash::BuildHasherDefault<IdHasher>>;
+
+/// Names of the fast outcome counters (index = position).
+const FAST: [&str; 40] = [
+    "ref:delivered", "ref:forward", "ref:expired", "ref:bad-mac", "ref:bad-ingress", "ref:bad-egress", "ref:bad-segment-change", "ref:bad-link-pair", "ref:link-down", "ref:non-local-delivery", "ref:alert-ingress", "ref:alert-egress", "ref:drop",
+    "sim:forward", "sim:delivered", "sim:alert-ingress", "sim:alert-egress", "sim:drop", "sim:scmp-param-erroneous-header-field", "sim:scmp-param-non-local-delivery", "sim:scmp-param-invalid-path", "sim:scmp-param-unknown-hop-cons-ingress-if", "sim:scmp-param-unknown-hop-cons-egress-if", "sim:scmp-param-invalid-hop-mac", "sim:scmp-param-path-expired", "sim:scmp-param-invalid-segment-change", "sim:scmp-param-other", "sim:scmp-external-interface-down", "sim:other-scmp", "sim:forward-external", "sim:parse-reject", "sim:iter-error", "sim:panic",
+    "cmp:same", "cmp:allowed:two-faults-coexist", "cmp:allowed:future-timestamp", "cmp:allowed:one-hop-segment", "cmp:allowed:router-alert-on-segment-change", "cmp:allowed:other", "cmp:diverge",
+];
+fn ref_idx(v: &Verdict) -> usize {
+    match v {
+        Verdict::Delivered { .. } => 0,
+        Verdict::Forward { .. } => 1,
+        Verdict::Reject { class, .. } => match class {
+            RejectClass::Expired => 2,
+            RejectClass::BadMac => 3,
+            RejectClass::BadIngress => 4,
+            RejectClass::BadEgress => 5,
+            RejectClass::BadSegmentChange => 6,
+            RejectClass::BadLinkPair => 7,
+            RejectClass::LinkDown => 8,
+            RejectClass::NonLocalDelivery => 9,
+        },
+        Verdict::Alert { egress: false, .. } => 10,
+        Verdict::Alert { egress: true, .. } => 11,
+        Verdict::Drop(_) => 12,
+    }
+}
+fn sim_idx(v: &SimVerdict) -> usize {
+    match v {
+        SimVerdict::Forward { .. } => 13,
+        SimVerdict::Delivered => 14,
+        SimVerdict::AlertIngress(_) => 15,
+        SimVerdict::AlertEgress(_) => 16,
+        SimVerdict::Drop => 17,
+        SimVerdict::Param { code, .. } => match code {
+            0 => 18,
+            35 => 19,
+            48 => 20,
+            49 => 21,
+            50 => 22,
+            51 => 23,
+            52 => 24,
+            53 => 25,
+            _ => 26,
+        },
+        SimVerdict::IfDown { .. } => 27,
+        SimVerdict::OtherScmp(_) => 28,
+        SimVerdict::ForwardExternal => 29,
+        SimVerdict::ParseReject(_) => 30,
+        SimVerdict::IterError(_) => 31,
+        SimVerdict::Panic(_) => 32,
+    }
+}
+
 pub struct Loc {
+    pub fast: [u64; 40],
     pub outcomes: BTreeMap<String, u64>,
     pub transitions: u64,
     pub walks: u64,
-    pub states: HashSet<u64>,
+    pub states: StateSet,
+}
+impl Default for Loc {
+    fn default() -> Self {
+        Loc { fast: [0; 40], outcomes: BTreeMap::new(), transitions: 0, walks: 0, states: StateSet::default() }
+    }
 }
 impl Loc {
     fn bump(&mut self, k: String) {
@@ -201,9 +275,25 @@ impl Loc {
         for (k, v) in o.outcomes {
             *self.outcomes.entry(k).or_default() += v;
         }
+        for i in 0..40 {
+            self.fast[i] += o.fast[i];
+        }
         self.transitions += o.transitions;
         self.walks += o.walks;
-        self.states.extend(o.states);
+        if self.states.is_empty() {
+            self.states = o.states;
+        } else {
+            self.states.extend(o.states);
+        }
+    }
+    pub fn all_outcomes(&self) -> BTreeMap<String, u64> {
+        let mut m = self.outcomes.clone();
+        for i in 0..40 {
+            if self.fast[i] > 0 {
+                *m.entry(FAST[i].to_string()).or_default() += self.fast[i];
+            }
+        }
+        m
     }
 }
 
@@ -248,76 +338,39 @@ fn down_list(down: &[bool]) -> Vec<usize> {
     down.iter().enumerate().filter(|(_, d)| **d).map(|(i, _)| i).collect()
 }
 
-/// Narrow canonical class of a divergence, from what is visible at the diverging state.
-fn classify(env: &Env, at: AsIdx, ingress: u16, bytes: &[u8], r: &Step, sim: &SimVerdict, why: &str) -> String {
-    let Some(p) = parse_path(bytes) else {
-        return format!("unparsable-for-reference:{}", sim.class_name());
-    };
-    let ch = p.curr_hf as usize;
-    let ci = p.curr_inf as usize;
-    let ok_ptr = ch < p.hops.len() && p.seg_of(ch) == Some(ci);
-    if !ok_ptr {
-        return format!("bad-pointer:ref={}:sim={}", r.verdict.class_name(), sim.class_name());
-    }
-    let at_seg_end = p.seg_of(ch + 1) != Some(ci) && ch + 1 < p.hops.len();
-    let cur_p = p.infos[ci].peering();
-    let next_p = at_seg_end && p.infos.get(ci + 1).map(|i| i.peering()).unwrap_or(false);
-    let cons = p.infos[ci].cons_dir();
-    let hop = &p.hops[ch];
-    let t_in = if cons { hop.cons_ingress } else { hop.cons_egress };
+/// Narrow canonical class of a divergence: the smallest set of named deviations (`Quirks`) under
+/// which R-router reproduces the simulator's behaviour on this state, plus the kind of effect.
+/// A divergence no deviation set explains is "unexplained:..." (and carries what was seen).
+fn classify(env: &Env, at: AsIdx, ingress: u16, bytes: &[u8], r: &Step, sim: &SimVerdict, sim_bytes: &[u8], why: &str) -> String {
     if let SimVerdict::Panic(m) = sim {
         return format!("panic@{}", m.rsplit(" @ ").next().unwrap_or("?"));
     }
-    if cur_p || next_p {
-        // pocketscion has no peering support: SegID is updated on the peering hop, the peering hop is
-        // handled as an ordinary cross-over
-        let single = p.seg_range(ci).len() == 1 || (at_seg_end && p.seg_range(ci + 1).len() == 1);
-        return if single && matches!(sim, SimVerdict::Drop) && r.verdict.is_accept() { "peering-flag-unsupported:one-hop-segment-dropped".into() } else { "peering-flag-unsupported".into() };
-    }
-    let seg_len_one = p.seg_range(ci).len() == 1;
-    match (&r.verdict, sim) {
-        (Verdict::Forward { .. }, SimVerdict::Param { code, .. }) if r.xover && (*code == 49 || *code == 50) => {
-            let nh = &p.hops[ch + 1];
-            let ncons = p.infos[ci + 1].cons_dir();
-            let n_in = if ncons { nh.cons_ingress } else { nh.cons_egress };
-            if n_in != 0 && n_in != ingress {
-                return "shortcut-xover-second-hop-ingress-check".into();
-            }
-            format!("xover-interface-error:sim={}", sim.class_name())
-        }
-        (Verdict::Reject { class: RejectClass::BadIngress, .. }, s) if s.is_accept() && t_in == 0 && ingress != 0 => "zero-ingress-hop-accepted-on-external-interface".into(),
-        (Verdict::Reject { class: RejectClass::BadSegmentChange, .. }, s) if s.is_accept() && ingress == 0 => "segment-change-from-inside-as-accepted".into(),
-        (Verdict::Reject { class: RejectClass::BadSegmentChange, .. }, s) if s.is_accept() => {
-            // which pair did the simulator let through?
-            let ir = env.t.neighbour(at, ingress).map(|n| n.2);
-            let nh = &p.hops[ch + 1];
-            let ncons = p.infos[ci + 1].cons_dir();
-            let eg = if ncons { nh.cons_egress } else { nh.cons_ingress };
-            let er = env.t.neighbour(at, eg).map(|n| n.2);
-            let name = |r: Option<NeighbourRole>| match r {
-                Some(NeighbourRole::Core) => "core",
-                Some(NeighbourRole::Parent) => "parent",
-                Some(NeighbourRole::Child) => "child",
-                Some(NeighbourRole::Peer) => "peer",
-                None => "none",
-            };
-            format!("segment-change-accepted:from-{}-to-{}", name(ir), name(er))
-        }
-        (rv, s) if seg_len_one && matches!(s, SimVerdict::Drop) => format!("one-hop-segment-dropped:ref={}", rv.class_name()),
-        (rv, s) => {
-            let mut tags = vec![];
-            if r.xover {
-                tags.push("xover");
-            }
-            if ingress == 0 {
-                tags.push("from-inside");
-            }
+    let effect = match (r.verdict.is_accept(), sim.is_accept()) {
+        (true, false) => "refuses-what-the-reference-forwards",
+        (false, true) => "forwards-what-the-reference-refuses",
+        (true, true) => {
             if why.contains("bytes") {
-                tags.push("bytes");
+                "packet-bytes-differ"
+            } else {
+                "different-next-hop"
             }
-            format!("ref={}:sim={}{}{}", rv.class_name(), s.class_name(), if tags.is_empty() { "" } else { ":" }, tags.join("+"))
+        }
+        (false, false) => "other-error-class",
+    };
+    let down = env.down;
+    let link_down = |li: usize| down[li];
+    let egress_hint = egress_of(bytes, r);
+    let mut masks: Vec<u32> = (1u32..128).collect();
+    masks.sort_by_key(|m| (m.count_ones(), *m));
+    for m in masks {
+        let q = refrouter::Quirks::from_mask(m);
+        let rq = refrouter::step_with(env.t, at, ingress, bytes, env.now, &link_down, &q);
+        let hint = egress_of(bytes, &rq).or(egress_hint);
+        if !matches!(bridge::compare(env.t, at, &rq, sim, sim_bytes, hint), Agreement::Diverge(_)) {
+            return format!("{}:{}", refrouter::Quirks::names(m).join("+"), effect);
         }
     }
+    format!("unexplained:ref={}:sim={}{}", r.verdict.class_name(), sim.class_name(), if r.xover { ":xover" } else { "" })
 }
 
 /// Lock-step walk from one initial state. `origin` describes how the packet was made (for the
@@ -325,9 +378,9 @@ fn classify(env: &Env, at: AsIdx, ingress: u16, bytes: &[u8], r: &Step, sim: &Si
 pub fn walk(env: &Env, loc: &mut Loc, start: AsIdx, ingress: u16, pkt: &[u8], origin: &dyn Fn() -> Value, want_states: bool) -> WalkOut {
     let mut out = WalkOut::default();
     loc.walks += 1;
-    let total_hops = parse_path(pkt).map(|p| p.hops.len()).unwrap_or(0);
-    out.segments = parse_path(pkt).map(|p| p.num_inf()).unwrap_or(0);
-    let dst_ia = RHeader::parse(pkt).map(|h| h.0.dst_ia).ok();
+    let p0 = parse_path(pkt);
+    let total_hops = p0.as_ref().map(|p| p.hops.len()).unwrap_or(0);
+    out.segments = p0.as_ref().map(|p| p.num_inf()).unwrap_or(0);
     let (mut at, mut ing, mut bytes) = (start, ingress, pkt.to_vec());
     let down = env.down;
     let link_down = |li: usize| down[li];
@@ -335,15 +388,15 @@ pub fn walk(env: &Env, loc: &mut Loc, start: AsIdx, ingress: u16, pkt: &[u8], or
     // a packet can be handled at most once per hop field; +2 lets an over-long walk show itself
     let bound = total_hops.max(1) + 2;
     loop {
+        if step_no > total_hops.max(1) {
+            env.run.violation("safety:walk-longer-than-hop-field-count", &format!("{step_no} AS steps on a path of {total_hops} hop fields"), witness(env, start, ingress, pkt, step_no, at, ing, &bytes, None, None, origin));
+        }
         if step_no >= bound {
-            env.run.violation("walk-longer-than-hop-field-count", &format!("{step_no} AS steps on a path of {total_hops} hop fields"), witness(env, start, ingress, pkt, step_no, at, ing, &bytes, None, None, origin));
             break;
         }
         loc.states.insert(state_key(env, at, ing, &bytes));
-        if let Some(p) = parse_path(&bytes) {
-            if p.curr_hf as usize + 1 == p.hops.len() {
-                out.reached_last_hop = true;
-            }
+        if step_no > 0 && bytes.len() > PATH_OFF && (bytes[PATH_OFF] & 63) as usize + 1 == total_hops {
+            out.reached_last_hop = true;
         }
         if want_states {
             out.r_states.push((at, ing, bytes.clone()));
@@ -356,21 +409,34 @@ pub fn walk(env: &Env, loc: &mut Loc, start: AsIdx, ingress: u16, pkt: &[u8], or
         step_no += 1;
         out.saw_xover |= r.xover;
         out.saw_peering |= r.peering;
-        let egress_hint = egress_of(&bytes, &r);
+        let egress_hint = if matches!(r.verdict, Verdict::Reject { class: RejectClass::LinkDown, .. }) { egress_of(&bytes, &r) } else { None };
         let agree = bridge::compare(env.t, at, &r, &sim, &sim_bytes, egress_hint);
-        loc.bump(format!("ref:{}", r.verdict.class_name()));
-        loc.bump(format!("sim:{}", sim.class_name()));
+        loc.fast[ref_idx(&r.verdict)] += 1;
+        loc.fast[sim_idx(&sim)] += 1;
         if env.verbose {
-            println!("  step {step_no}: AS{at} ({}) ingress {ing}\n    packet   {}\n    reference: {:?} events={:?} dontcare={:?}\n    simulator: {:?}\n    -> {:?}", ia_str(env.t, at), vpc::hex(&bytes), short(&r.verdict), r.events, r.dontcare, short_sim(&sim), agree);
+            println!("  step {step_no}: AS{at} ({}) ingress {ing}\n    packet   {}\n    reference: {} events={:?} dontcare={:?}\n    simulator: {}\n    -> {:?}", ia_str(env.t, at), vpc::hex(&bytes), short(&r.verdict), r.events, r.dontcare, short_sim(&sim), agree);
         }
         // --- reference-independent safety of the simulator's action
-        safety(env, loc, at, ing, &bytes, &sim, dst_ia, start, ingress, pkt, step_no, origin);
+        safety(env, loc, at, ing, &bytes, &sim, start, ingress, pkt, step_no, origin);
         match &agree {
-            Agreement::Same => loc.bump("cmp:same".into()),
-            Agreement::Allowed(w) => loc.bump(format!("cmp:allowed:{w}")),
+            Agreement::Same => loc.fast[33] += 1,
+            Agreement::Allowed(w) => {
+                let i = match *w {
+                    "two-faults-coexist" => 34,
+                    "future-timestamp" => 35,
+                    "one-hop-segment" => 36,
+                    "router-alert-on-segment-change" => 37,
+                    _ => 38,
+                };
+                loc.fast[i] += 1;
+            }
             Agreement::Diverge(why) => {
-                let class = classify(env, at, ing, &bytes, &r, &sim, why);
-                loc.bump(format!("cmp:diverge:{class}"));
+                loc.fast[39] += 1;
+                let class = classify(env, at, ing, &bytes, &r, &sim, &sim_bytes, why);
+                if env.verbose {
+                    println!("    DIVERGENCE class={class}");
+                }
+                loc.bump(format!("diverge:{class}"));
                 env.run.violation(&class, &format!("simulator and reference router disagree at AS{at} ({}) ingress {ing}: {why}", ia_str(env.t, at)), witness(env, start, ingress, pkt, step_no, at, ing, &bytes, Some(&r), Some(&sim), origin));
             }
         }
@@ -385,9 +451,6 @@ pub fn walk(env: &Env, loc: &mut Loc, start: AsIdx, ingress: u16, pkt: &[u8], or
             (rv, SimVerdict::Forward { next_ia, next_if, .. }) => {
                 // only the simulator forwards: follow it to see how far the packet gets
                 out.r_final = rv.class_name();
-                if let Verdict::Delivered { at, .. } = rv {
-                    out.r_delivered_at = Some(*at);
-                }
                 match env.t.as_by_ia(*next_ia) {
                     Some(n) => {
                         at = n;
@@ -396,7 +459,6 @@ pub fn walk(env: &Env, loc: &mut Loc, start: AsIdx, ingress: u16, pkt: &[u8], or
                     }
                     None => break,
                 }
-                continue;
             }
             (rv, _) => {
                 out.r_final = rv.class_name();
@@ -459,11 +521,11 @@ fn witness(env: &Env, start: AsIdx, ingress: u16, pkt: &[u8], step_no: usize, at
 }
 
 #[allow(clippy::too_many_arguments)]
-fn safety(env: &Env, loc: &mut Loc, at: AsIdx, ing: u16, bytes: &[u8], sim: &SimVerdict, dst_ia: Option<u64>, start: AsIdx, ingress: u16, pkt: &[u8], step_no: usize, origin: &dyn Fn() -> Value) {
+fn safety(env: &Env, loc: &mut Loc, at: AsIdx, ing: u16, bytes: &[u8], sim: &SimVerdict, start: AsIdx, ingress: u16, pkt: &[u8], step_no: usize, origin: &dyn Fn() -> Value) {
     match sim {
         SimVerdict::Delivered => {
             let here = env.t.ases[at].ia();
-            let dst_now = RHeader::parse(bytes).map(|h| h.0.dst_ia).ok().or(dst_ia);
+            let dst_now = if bytes.len() >= 20 { Some(u64::from_be_bytes(bytes[12..20].try_into().unwrap())) } else { None };
             if dst_now != Some(here) {
                 env.run.violation("safety:delivered-outside-destination-as", &format!("simulator delivers locally at AS{at} but DstIA is {:x?}", dst_now), witness(env, start, ingress, pkt, step_no, at, ing, bytes, None, Some(sim), origin));
             }
@@ -869,9 +931,17 @@ pub fn run(args: &vpc::Args) -> ! {
     } else {
         topos.extend(quick_curated());
     }
+    if let Ok(only) = std::env::var("VP_ONLY") {
+        topos = reftopo_enum::curated().into_iter().chain((1..=4).flat_map(|n| reftopo_enum::enumerate(n, 2))).filter(|t| t.name.contains(&only)).collect();
+    }
     let ntopos = topos.len();
     let reports: Vec<(String, TopoReport)> = topos.par_iter().map(|t| (t.name.clone(), explore_topology(&run, t, 3))).collect();
 
+    if std::env::var("VP_DEBUG").is_ok() {
+        for (name, r) in &reports {
+            eprintln!("{name}: pieces={} packets={:?} valid={} corrupted={} walks={} transitions={} states={}", r.pieces, r.packets, r.valid, r.corrupted, r.loc.walks, r.loc.transitions, r.loc.states.len());
+        }
+    }
     let mut states = 0u64;
     let mut transitions = 0u64;
     let mut walks = 0u64;
